@@ -30,7 +30,7 @@ func init() {
 		Scenarios: []Scenario{{Name: "M-ROUTER", Weight: 4, Run: c17Run}, {Name: "S-ROUTE/wire", Weight: 1, Run: c17WireRun}},
 		Quick:     300000,
 		Thorough:  20000000,
-		Require:   []string{"dispatch.overlapsAnotherOperation", "path.matchedSeveralPatterns"},
+		Require:   []string{"wire.emptySegment", "wire.skippedOptionBeforePath", "dispatch.throughToHandler", "dispatch.overlapsAnotherOperation", "path.matchedSeveralPatterns"},
 		Assume: []string{
 			"generated {var:regex} sub-patterns have a unique decomposition (they never match '/', or a single greedy variable ends the pattern), so the independent segment-wise reference matcher need not imitate the regexp engine's preferences",
 			"under concurrency a dispatch is judged against every route set that existed at some instant during the call; data-race freedom is not decidable by a cooperative scheduler (its hand-offs create happens-before edges) and is not claimed by this check",
